@@ -33,7 +33,7 @@ GENOME = "ATGGCATTGTAACCGATGAAATAGCTTGACCATGGTTAAGCGTACGTTGA"
 
 
 def rc(s):
-    return s[::-1].translate(str.maketrans("ACGT", "TGCA"))
+    return s[::-1].translate(str.maketrans("ACGTacgt", "TGCAtgca"))
 
 
 def walker(exons, strand_name, frames, carry_offsets=True):
